@@ -75,6 +75,40 @@ def sigTieOK (ms : List Meth) (k : Key) : Bool :=
   ap.all (fun m => ap.all (fun m' =>
     !(sameTypesAt k m m' && m.prio == m'.prio && !sameSig m m') || m.tb == m'.tb))
 
+/-! ### the rule read up to mutual subclassing
+
+Two distinct classes that are subclasses of each other (structurally identical runtime protocols) are outside
+`Hier.Antisym`, the hypothesis of `C02_partial`.  The `…E` definitions read "the same type" as "each a subclass of
+the other": under `Hier.Antisym` they are the definitions above (`Props/C02Twin.lean`), outside it they are what the
+correspondence harness holds the implementation to (oracle only). -/
+
+def eqvTy (t t' : Ty) : Bool := leTy H t t' && leTy H t' t
+
+def sameTypesAtE (k : Key) (m m' : Meth) : Bool :=
+  k.all (fun e => match m.tyAt e.1, m'.tyAt e.1 with
+    | some t, some t' => eqvTy H t t'
+    | none, none => true
+    | _, _ => false)
+
+def beatsE (k : Key) (m m' : Meth) : Bool :=
+  decide (m.prio > m'.prio) ||
+  (decide (m.prio = m'.prio) &&
+    ((leAt H k m m' && !sameTypesAtE H k m m') || (sameSig m m' && decide (m.tb > m'.tb))))
+
+def winnersE (ms : List Meth) (k : Key) : List Meth :=
+  let ap := applicable H ms k
+  ap.filter (fun m => ap.all (fun m' => m'.id == m.id || beatsE H k m m'))
+
+def specResolveE (ms : List Meth) (k : Key) : SpecRes :=
+  match winnersE H ms k with
+  | [w] => .ran w.id
+  | _ => if (applicable H ms k).isEmpty then .noMethod else .ambiguous
+
+def sigTieOKE (ms : List Meth) (k : Key) : Bool :=
+  let ap := applicable H ms k
+  ap.all (fun m => ap.all (fun m' =>
+    !(sameTypesAtE H k m m' && m.prio == m'.prio && !sameSig m m') || m.tb == m'.tb))
+
 /-- all declared types are plain classes (classes, ABCs, protocols) -/
 def staticTable (ms : List Meth) : Bool := ms.all (fun m => m.params.all (fun p => p.2.isCls))
 
@@ -93,6 +127,12 @@ def nextSpec (ms : List Meth) (code : Nat) (k : Key) : SpecRes :=
   | none => specResolve H ms k
   | some cur =>
     specResolve H (ms.filter (fun m => !(m.id == cur.id || (applicableTo H k m && beats H k m cur)))) k
+
+def nextSpecE (ms : List Meth) (code : Nat) (k : Key) : SpecRes :=
+  match (applicable H ms k).find? (fun m => m.hasCode && m.code == code) with
+  | none => specResolveE H ms k
+  | some cur =>
+    specResolveE H (ms.filter (fun m => !(m.id == cur.id || (applicableTo H k m && beatsE H k m cur)))) k
 
 end
 end Ovld
